@@ -51,6 +51,7 @@ import (
 	"github.com/prometheus/alertmanager/marker"
 	"github.com/prometheus/alertmanager/matcher/compat"
 	"github.com/prometheus/alertmanager/pkg/labels"
+	"github.com/prometheus/alertmanager/pkg/verifhook"
 	pb "github.com/prometheus/alertmanager/silence/silencepb"
 	"github.com/prometheus/alertmanager/tracing"
 )
@@ -191,6 +192,7 @@ func (s *Silencer) Mutes(ctx context.Context, lset model.LabelSet) bool {
 		newVersion = cachedEntry.version
 	)
 	cacheIsUpToDate := cachedEntry.version == s.silences.Version()
+	verifhook.Yield("silencer.mutes.read", fp)
 
 	if cacheIsUpToDate && cachedEntry.count() == 0 {
 		// Very fast path: no new silences have been added and this lset was not
@@ -250,6 +252,7 @@ func (s *Silencer) Mutes(ctx context.Context, lset model.LabelSet) bool {
 	// might already return a newer version, which is not the version our old list of
 	// applicable silences is based on.
 
+	verifhook.Yield("silencer.mutes.queried", fp)
 	totalSilences := len(oldSils) + len(newSils)
 	if totalSilences == 0 {
 		// Easy case, neither active nor pending silences anymore.
@@ -303,6 +306,7 @@ func (s *Silencer) Mutes(ctx context.Context, lset model.LabelSet) bool {
 		"pending", len(allIDs)-len(activeIDs),
 	)
 
+	verifhook.Yield("silencer.mutes.beforeSet", fp)
 	s.cache.set(fp, newCacheEntry(newVersion, allIDs...))
 
 	t := trace.WithAttributes(
